@@ -64,6 +64,13 @@ def search(ctx):
             if rng.random() < 0.5: s[1] = P(s[0].x + h, s[0].y)
             else: s[2] = P(s[3].x - h, s[3].y)
             t = rng.choice([0.0, 1.0, t]); fam = 'short-handle'
+        elif k < 0.24:
+            # far from the origin with short but real legs (exact dyadic offsets): relative point comparisons must not swallow a leg
+            off = 2.0 ** rng.choice([20, 24, 30]); leg = 2.0 ** rng.choice([-11, -6, -1, 2]) * (off / 2.0 ** 20 if rng.random() < 0.5 else 1.0)
+            n_ = rng.choice([2, 3, 4])
+            ps = [P(off, -off)]
+            for j in range(1, n_): ps.append(P(ps[-1].x + leg * rng.choice([1, 2, 3]), ps[-1].y + leg * rng.choice([-1, 0, 1, 2])))
+            s = gen.KINDS[n_](*ps); fam = 'far-short-legs'
         f = check(s, t)
         if f == [] and rng.random() < 0.25:
             f = gen.freshness(rng, s, {'tangentAtTime': lambda x: x.tangentAtTime(t), 'normalAtTime': lambda x: x.normalAtTime(t), 'curvatureAtTime': lambda x: x.curvatureAtTime(t)})
